@@ -104,6 +104,12 @@ fn check_mutant(rep: &mut Report, f: &ValidFile, mutant: &[u8], what: &str, mode
     }
 }
 
+/// an edit that makes the container lie about itself (CRCs recomputed): the property tolerates "exactly the
+/// original content", so success with the original data is not a violation; anything else is
+fn check_mutant_strict(rep: &mut Report, f: &ValidFile, mutant: &[u8], what: &str) {
+    check_mutant(rep, f, mutant, what, mutant.len() <= 3000)
+}
+
 /// true if `out_len` bytes are exactly the data of the leading members of the original file and the
 /// mutant differs from the original only at/after the start of the first lost member, whose magic is damaged
 fn lzip_prefix_members(orig: &[u8], mutant: &[u8], out_len: usize) -> bool {
@@ -240,6 +246,109 @@ pub fn run_c04(rep: &mut Report, rng: &mut Rng, thorough: bool) {
             rep.evaluations += 1;
         }
         rep.case(format!("file:{}", f.name), !f.data.is_empty(), || json!({"file": f.name, "len": f.bytes.len(), "hex": if f.bytes.len() <= 300 { hex(&f.bytes) } else { "-".into() }, "exhaustive_bitflips": exhaustive}));
+    }
+    // whole-block edits of multi-block XZ files: the index (unpadded size, uncompressed size per block,
+    // in order) is what the format offers against them
+    for k in 0..(if thorough { 60 } else { 8 }) {
+        let mut r = rng.fork();
+        let nblocks = r.range(3, 6) as usize;
+        let bs = 4096usize;
+        let mut data = vec![];
+        for b in 0..nblocks {
+            // blocks of different compressibility => different compressed sizes
+            let kind = ["text", "random", "const", "mixed", "periodic"][(b + k as usize) % 5];
+            let len = if b + 1 == nblocks { r.range(1, bs as u64) as usize } else { bs };
+            data.extend(gen_data(&mut r, kind, len));
+        }
+        let check = *r.pick(&[1u8, 4, 10]);
+        let mut o = XzOpts { lz: small_lz(&mut r), check, block: Some(bs as u64), filters: vec![] };
+        o.lz.dict = 4096;
+        let bytes = match xz_compress(&data, &o, &[data.len()], 0) {
+            Outcome::Ok(b) => b,
+            _ => continue,
+        };
+        // block extents: unpadded sizes from the index, each padded to a multiple of four
+        let n = bytes.len();
+        let backward = u32::from_le_bytes(bytes[n - 8..n - 4].try_into().unwrap()) as usize;
+        let idx_start = n - 12 - (backward + 1) * 4;
+        let mut p = idx_start + 1;
+        let mut rd = |p: &mut usize| -> u64 {
+            let mut v = 0u64;
+            let mut sh = 0;
+            loop {
+                let b = bytes[*p];
+                *p += 1;
+                v |= ((b & 0x7F) as u64) << sh;
+                sh += 7;
+                if b & 0x80 == 0 {
+                    return v;
+                }
+            }
+        };
+        let cnt = rd(&mut p) as usize;
+        let mut ext = vec![];
+        let mut pos = 12usize;
+        let mut recs = vec![];
+        for _ in 0..cnt {
+            let unp = rd(&mut p) as usize;
+            let unc = rd(&mut p);
+            let padded = (unp + 3) / 4 * 4;
+            ext.push((pos, pos + padded));
+            recs.push((unp, unc));
+            pos += padded;
+        }
+        if pos != idx_start || cnt < 2 {
+            continue;
+        }
+        let f = ValidFile { name: format!("xz-blocks{cnt}-chk{check}-{k}"), fmt: "xz", bytes: bytes.clone(), data: data.clone(), check };
+        rep.count("file.xz-multiblock");
+        let blk = |i: usize| bytes[ext[i].0..ext[i].1].to_vec();
+        for i in 0..cnt {
+            // duplicate block i
+            let mut m = bytes[..ext[i].1].to_vec();
+            m.extend(blk(i));
+            m.extend(&bytes[ext[i].1..]);
+            check_mutant(rep, &f, &m, &format!("dup-block@{i}"), m.len() <= 40000);
+            // delete block i
+            let mut m = bytes[..ext[i].0].to_vec();
+            m.extend(&bytes[ext[i].1..]);
+            check_mutant(rep, &f, &m, &format!("delete-block@{i}"), m.len() <= 40000);
+            rep.evaluations += 2;
+            if i + 1 < cnt {
+                let mut m = bytes[..ext[i].0].to_vec();
+                m.extend(blk(i + 1));
+                m.extend(blk(i));
+                m.extend(&bytes[ext[i + 1].1..]);
+                if recs[i] == recs[i + 1] {
+                    // equal records: the result is again a well-formed file (of the swapped data): the XZ
+                    // format has no whole-stream check, nothing can detect this
+                    rep.count("swap-equal-size-blocks(skipped: undetectable by the format)");
+                } else {
+                    check_mutant(rep, &f, &m, &format!("swap-blocks@{i}"), m.len() <= 40000);
+                    rep.evaluations += 1;
+                }
+            }
+        }
+        // index / footer field edits with the CRCs recomputed
+        for j in idx_start + 1..n - 12 - 4 {
+            for delta in [1u8, 0x7F] {
+                let mut m = bytes.clone();
+                m[j] = m[j].wrapping_add(delta);
+                crate::c06::xz_fix_crcs(&bytes, &mut m);
+                check_mutant(rep, &f, &m, &format!("index-field-crcfix@{}", j - idx_start), m.len() <= 40000);
+                rep.evaluations += 1;
+            }
+        }
+        for d in [1u32, 2, 0xFFFF] {
+            let mut m = bytes.clone();
+            let bw = (backward as u32).wrapping_add(d);
+            m[n - 8..n - 4].copy_from_slice(&bw.to_le_bytes());
+            crate::c06::xz_fix_crcs(&bytes, &mut m);
+            // fix-up located the index with the ORIGINAL backward size; the footer CRC covers the new one
+            check_mutant_strict(rep, &f, &m, &format!("backward-size-crcfix+{d}"));
+            rep.evaluations += 1;
+        }
+        rep.case(format!("xzblocks:{cnt}:chk{check}"), true, || json!({"file": f.name, "len": bytes.len(), "records": recs}));
     }
     // non-format inputs: must be an error, never an empty success
     for i in 0..(if thorough { 2000 } else { 300 }) {
